@@ -22,6 +22,7 @@ import (
 func thorough(prop, repo string, p *Prog, r *Report, extra map[string]any) {
 	summarise(runMutants(prop, repo, mutantsFor(prop)), extra, "selftest_mutants")
 	seedBattery(prop, repo, extra)
+	benignBattery(prop, repo, extra)
 	altLoads(repo, extra)
 	crossReference(prop, repo, extra)
 }
@@ -131,7 +132,7 @@ func seedBattery(prop, repo string, extra map[string]any) {
 				return
 			}
 			cc := exec.Command(self, "-property", prop, "-repo", tmp)
-			cc.Env = append(os.Environ(), "CRS_NOSELFTEST=1")
+			cc.Env = append(os.Environ(), "CRS_NOSELFTEST=1", "CRS_NOREPLAY=1")
 			o, _ := cc.CombinedOutput()
 			code := -1
 			if nil != cc.ProcessState {
@@ -226,4 +227,111 @@ func crossReference(prop, repo string, extra map[string]any) {
 	if 0 != len(out) {
 		extra["cross_reference"] = out
 	}
+}
+
+// benignBattery replays the kept behaviour-preserving changes written against
+// this property (/verif/benign/<name>: refactorings by independent agents
+// after which the property still holds) on scratch copies of the current tree;
+// the rules must stay silent on each.
+func benignBattery(prop, repo string, extra map[string]any) {
+	self, err := os.Executable()
+	if nil != err {
+		return
+	}
+	dir := filepath.Join(filepath.Dir(filepath.Dir(self)), "benign")
+	ents, err := os.ReadDir(dir)
+	if nil != err {
+		return
+	}
+	type res struct {
+		Name     string   `json:"name"`
+		Outcome  string   `json:"outcome"` /* silent-as-expected, FALSE-ALARM, skipped */
+		Findings []string `json:"findings,omitempty"`
+		Summary  string   `json:"summary,omitempty"`
+	}
+	var names []string
+	for _, e := range ents {
+		b, err := os.ReadFile(filepath.Join(dir, e.Name(), "meta.json"))
+		if nil != err {
+			continue
+		}
+		var m struct {
+			Property string `json:"property"`
+		}
+		if nil != json.Unmarshal(b, &m) || m.Property != prop {
+			continue
+		}
+		names = append(names, e.Name())
+	}
+	sort.Strings(names)
+	out := make([]res, len(names))
+	var wg sync.WaitGroup
+	sem := make(chan struct{}, 6)
+	for i, n := range names {
+		wg.Add(1)
+		go func(i int, n string) {
+			defer wg.Done()
+			sem <- struct{}{}
+			defer func() { <-sem }()
+			out[i] = res{Name: n}
+			var meta struct {
+				Summary string `json:"summary"`
+			}
+			if b, err := os.ReadFile(filepath.Join(dir, n, "meta.json")); nil == err {
+				json.Unmarshal(b, &meta)
+				if len(meta.Summary) > 200 {
+					meta.Summary = meta.Summary[:200] + "…"
+				}
+				out[i].Summary = meta.Summary
+			}
+			tmp, err := os.MkdirTemp("", "crs-benign-")
+			if nil != err {
+				out[i].Outcome = "skipped"
+				return
+			}
+			defer os.RemoveAll(tmp)
+			if o, err := exec.Command("rsync", "-a", "--exclude=.git", repo+"/", tmp+"/").CombinedOutput(); nil != err {
+				out[i].Outcome, out[i].Findings = "skipped", []string{"copy failed: " + string(o)}
+				return
+			}
+			pc := exec.Command("patch", "-p1", "-s", "-F3", "--no-backup-if-mismatch", "-i", filepath.Join(dir, n, "patch.diff"))
+			pc.Dir = tmp
+			if o, err := pc.CombinedOutput(); nil != err {
+				out[i].Outcome, out[i].Findings = "skipped", []string{"patch does not apply to the current tree: " + firstLine(string(o))}
+				return
+			}
+			cc := exec.Command(self, "-property", prop, "-repo", tmp)
+			cc.Env = append(os.Environ(), "CRS_NOSELFTEST=1", "CRS_NOREPLAY=1")
+			o, _ := cc.CombinedOutput()
+			code := -1
+			if nil != cc.ProcessState {
+				code = cc.ProcessState.ExitCode()
+			}
+			switch code {
+			case 0:
+				out[i].Outcome = "silent-as-expected"
+			case 1:
+				out[i].Outcome = "FALSE-ALARM"
+				for _, l := range strings.Split(string(o), "\n") {
+					if strings.Contains(l, "] ") && strings.Contains(l, " — ") {
+						l = strings.ReplaceAll(l, tmp+"/", "")
+						if len(l) > 260 {
+							l = l[:260] + "…"
+						}
+						out[i].Findings = append(out[i].Findings, l)
+					}
+				}
+			default:
+				out[i].Outcome = "skipped"
+				out[i].Findings = []string{fmt.Sprintf("checker exit %d: %s", code, firstLine(string(o)))}
+			}
+		}(i, n)
+	}
+	wg.Wait()
+	counts := map[string]int{}
+	for _, x := range out {
+		counts[x.Outcome]++
+	}
+	extra["benign_changes"] = map[string]any{"counts": counts, "results": out,
+		"note": "each kept behaviour-preserving change (see /verif/benign/<name>/meta.json: made by an independent agent, compiles, passes the existing suite, with an argument why the property still holds) is applied to a scratch copy of the current working tree; the rules must report nothing"}
 }
